@@ -264,7 +264,20 @@ def live_handler_step(c, kind, n=1, allow_meanwhile=True, allow_errors=True, all
     c.tag("outcomes", "/".join(o["status"] + ("+" + o["place_status"] if "place_status" in o else "") for o in outcomes))
     state = {"answered": 0, "instr_seen": [], "delivered": False}
 
+    def _probe():
+        # a strategy tries a further request while this one (or its retry) is still in flight: must be rejected
+        from flumine.exceptions import OrderUpdateError
+        for i, o in enumerate(orders):
+            before = (o.status, len(o.status_log))
+            try:
+                market.cancel_order(o, force=True)
+                state.setdefault("probe", []).append((i, "accepted", before))
+            except OrderUpdateError:
+                state.setdefault("probe", []).append((i, "rejected", before, (o.status, len(o.status_log))))
+
     def script(instructions, attempt):
+        if attempt > 1:
+            _probe()
         if attempt <= fail_until:
             if err_kind == "BetfairError":
                 raise BetfairError("scripted")
@@ -283,15 +296,7 @@ def live_handler_step(c, kind, n=1, allow_meanwhile=True, allow_errors=True, all
                         fl._process_current_orders(cm.current_orders_event(client, [co]))
                 else:
                     stream_complete(fl, client, o)
-        # a strategy reacting to the stream update tries a further request while this one is still in flight
-        from flumine.exceptions import OrderUpdateError
-        for i, o in enumerate(orders):
-            before = (o.status, len(o.status_log))
-            try:
-                market.cancel_order(o, force=True)
-                state.setdefault("probe", []).append((i, "accepted", before))
-            except OrderUpdateError:
-                state.setdefault("probe", []).append((i, "rejected", before, (o.status, len(o.status_log))))
+        _probe()
         reps = []
         for i, o in enumerate(orders):
             oc = outcomes[i]
